@@ -10,8 +10,25 @@
 //! `Litep2pEvent`s the user of the library sees (`udialfail:<address>:<kind>`, `ulist:<a>=<k>|..`,
 //! `est:..`, `closed:..`).
 //!
+//! Coverage round `mgr2`:
+//! * the scripted transport OWNS a real `TcpTransport` (built per case from a real
+//!   `TransportManager::transport_handle(..)`, never polled: nothing is ever dialed) and delegates the
+//!   SYNCHRONOUS part of `dial` / `open` / `cancel` to it, returning its `Result`: whatever the real
+//!   `TcpTransport::dial` refuses synchronously is refused here, after the manager has set the peer state;
+//! * connection ids of inbound connections (every label an `ev` operation introduces) are taken through the
+//!   real `TransportHandle::next_connection_id()` of a handle obtained from the real
+//!   `TransportManager::transport_handle(..)`; an id that already names another connection is reported as
+//!   `idclash:<old>=<new>` in place of the result; `substream <p>` opens a substream to peer `p` through a
+//!   real (stand-alone) `TransportService` fed by a real `ProtocolSet`, which advances the OTHER counter
+//!   (`sub=<substream id>`);
+//! * without installed protocols a closure (`ev closed`) is reported the way a connection does it: through
+//!   the real `ProtocolSet::report_connection_closed` of a set made by the real `TransportHandle`;
+//! * `scores <p>` prints the address store of peer `p` (`sc=<address>=<score>,..`, sorted), read-only.
+//!
 //! Addresses use a component syntax (`ip4.5/tcp.5/p2p.1`, `-` for the empty address); peers are
-//! `crate::verif::peer(i)` (`0` is the local peer); connection ids are named by the labels the
+//! `crate::verif::peer(i)` (`0` is the local peer); `ip4.<n>` is `10.0.0.n` below 256, `0.0.0.0` for 0, the
+//! boundary targets 255.255.255.255 / 127.0.0.1 / 224.0.0.1 / 169.254.0.1 for 99999 / 99998 / 99997 / 99996 and
+//! the public `8.8.x.y` otherwise; connection ids are named by the labels the
 //! operations introduce (`as=c3`, or the first use of a label in an `ev` operation, which takes a
 //! fresh id from the shared counter like a transport does).
 
@@ -23,8 +40,11 @@ use super::{
 use crate::{
     codec::ProtocolCodec,
     error::{AddressError, DialError, Error, ImmediateDialError, NegotiationError},
-    protocol::InnerTransportEvent,
-    transport::{Endpoint, Transport, TransportEvent},
+    protocol::{InnerTransportEvent, ProtocolSet, SubstreamKeepAlive, TransportService},
+    transport::{
+        tcp::{config::Config as TcpConfig, TcpTransport},
+        Endpoint, Transport, TransportBuilder, TransportEvent, KEEP_ALIVE_TIMEOUT,
+    },
     types::{protocol::ProtocolName, ConnectionId},
     verif::{peer, peer_index, VerifBox},
     BandwidthSink, Litep2p, Litep2pEvent, PeerId,
@@ -42,7 +62,7 @@ use std::{
     future::Future,
     net::{Ipv4Addr, Ipv6Addr},
     pin::Pin,
-    sync::{atomic::Ordering, Arc, Mutex},
+    sync::{Arc, Mutex},
     task::{Context, Poll},
 };
 
@@ -59,6 +79,9 @@ struct Shared {
     handle: Option<TransportHandle>,
     /// peer and endpoint of the connections the transport reported
     reported: HashMap<ConnectionId, (PeerId, Endpoint)>,
+    /// the REAL TCP transport whose synchronous `dial` / `open` / `cancel` decide what the scripted
+    /// transport answers; never polled (nothing is dialed), dropped with the case
+    tcp: Option<TcpTransport>,
 }
 
 struct Scripted(Arc<Mutex<Shared>>);
@@ -83,10 +106,9 @@ impl Stream for Scripted {
 
 impl Transport for Scripted {
     fn dial(&mut self, id: ConnectionId, address: Multiaddr) -> crate::Result<()> {
-        // as `TcpTransport::dial`: the address is parsed (synchronously) before anything is recorded
-        {
-            use crate::transport::common::listener::{GetSocketAddr, TcpAddress};
-            TcpAddress::multiaddr_to_socket_address(&address)?;
+        // the synchronous part of the REAL `TcpTransport::dial` decides (the future it queues is never polled)
+        if let Some(tcp) = self.0.lock().unwrap().tcp.as_mut() {
+            tcp.dial(id, address.clone())?;
         }
         self.record("dial", id, vec![address]);
         Ok(())
@@ -130,6 +152,10 @@ impl Transport for Scripted {
     }
 
     fn open(&mut self, id: ConnectionId, addresses: Vec<Multiaddr>) -> crate::Result<()> {
+        // the synchronous part of the REAL `TcpTransport::open`
+        if let Some(tcp) = self.0.lock().unwrap().tcp.as_mut() {
+            tcp.open(id, addresses.clone())?;
+        }
         self.record("open", id, addresses);
         Ok(())
     }
@@ -140,6 +166,9 @@ impl Transport for Scripted {
     }
 
     fn cancel(&mut self, id: ConnectionId) {
+        if let Some(tcp) = self.0.lock().unwrap().tcp.as_mut() {
+            tcp.cancel(id);
+        }
         self.record("cancel", id, vec![]);
     }
 }
@@ -174,6 +203,30 @@ pub struct ManagerBox {
     prx: Vec<Receiver<InnerTransportEvent>>,
     /// automatic labels `q1, q2, ..` for attempts started by queued commands
     auto: usize,
+    /// resolver handed to the real `TcpTransport`s (built once; never asked anything)
+    resolver: Option<Arc<hickory_resolver::TokioResolver>>,
+    /// a freshly allocated connection id already named another connection: `<old label>=<new label>`
+    clash: Option<String>,
+    /// `substream`: a real stand-alone `TransportService` on the manager's substream counter, the sender of its
+    /// event channel and, per peer, the real `ProtocolSet` (connection `1_000_000 + p`) it opens substreams on
+    sub: Option<(TransportService, Sender<InnerTransportEvent>, HashMap<u64, ProtocolSet>)>,
+}
+
+/// As `Litep2p::new`: the system configuration, else a fixed one (the resolver is never asked anything).
+fn make_resolver() -> Option<Arc<hickory_resolver::TokioResolver>> {
+    use hickory_resolver::TokioResolver;
+    if let Ok(builder) = TokioResolver::builder_tokio() {
+        if let Ok(resolver) = builder.build() {
+            return Some(Arc::new(resolver));
+        }
+    }
+    TokioResolver::builder_with_config(
+        hickory_resolver::config::ResolverConfig::udp_and_tcp(&hickory_resolver::config::GOOGLE),
+        hickory_resolver::net::runtime::TokioRuntimeProvider::default(),
+    )
+    .build()
+    .ok()
+    .map(Arc::new)
 }
 
 impl ManagerBox {
@@ -190,6 +243,9 @@ impl ManagerBox {
             ptx: Vec::new(),
             prx: Vec::new(),
             auto: 0,
+            resolver: None,
+            clash: None,
+            sub: None,
         }
     }
 
@@ -317,6 +373,10 @@ impl ManagerBox {
             let protocol = match kind {
                 "ip4" => Protocol::Ip4(match arg {
                     0 => Ipv4Addr::UNSPECIFIED,
+                    99999 => Ipv4Addr::BROADCAST,
+                    99998 => Ipv4Addr::LOCALHOST,
+                    99997 => Ipv4Addr::new(224, 0, 0, 1),
+                    99996 => Ipv4Addr::new(169, 254, 0, 1),
                     n if n < 256 => Ipv4Addr::new(10, 0, 0, n as u8),
                     n => Ipv4Addr::new(8, 8, (n >> 8) as u8, n as u8),
                 }),
@@ -355,7 +415,15 @@ impl ManagerBox {
             .map(|p| match p {
                 Protocol::Ip4(a) => {
                     let o = a.octets();
-                    if o[0] == 8 {
+                    if a == Ipv4Addr::BROADCAST {
+                        "ip4.99999".to_string()
+                    } else if a == Ipv4Addr::LOCALHOST {
+                        "ip4.99998".to_string()
+                    } else if o == [224, 0, 0, 1] {
+                        "ip4.99997".to_string()
+                    } else if o == [169, 254, 0, 1] {
+                        "ip4.99996".to_string()
+                    } else if o[0] == 8 {
                         format!("ip4.{}", ((o[2] as u64) << 8) | o[3] as u64)
                     } else {
                         format!("ip4.{}", o[3])
@@ -395,16 +463,22 @@ impl ManagerBox {
     }
 
     fn bind(&mut self, label: &str, id: ConnectionId) {
+        if let Some(old) = self.names.get(&id) {
+            if old != label && self.clash.is_none() {
+                self.clash = Some(format!("{old}={label}"));
+            }
+        }
         self.labels.insert(label.to_string(), id);
         self.names.insert(id, label.to_string());
     }
 
-    /// The id behind a label; an unknown label takes a fresh id from the shared counter.
+    /// The id behind a label; an unknown label takes a fresh id the way a transport does: through the
+    /// real `TransportHandle::next_connection_id()` of the handle the real `transport_handle(..)` returned.
     fn conn_of(&mut self, label: &str) -> ConnectionId {
         if let Some(id) = self.labels.get(label) {
             return *id;
         }
-        let id = ConnectionId::from(self.mgr().next_connection_id.fetch_add(1usize, Ordering::Relaxed));
+        let id = self.shared.lock().unwrap().handle.as_mut().expect("handle").next_connection_id();
         self.bind(label, id);
         id
     }
@@ -543,6 +617,10 @@ impl ManagerBox {
         states.sort();
         let states: Vec<String> = states.iter().map(|(i, s)| format!("{i}:{s}")).collect();
         let dash = |v: Vec<String>| if v.is_empty() { "-".to_string() } else { v.join(" ") };
+        let result = match self.clash.take() {
+            Some(clash) => format!("idclash:{clash}"),
+            None => result,
+        };
         let base = format!(
             "{result} ; calls={} ; ev={} ; st={} ; pend={} acc={} lim={}/{} oe={}",
             dash(calls),
@@ -610,6 +688,27 @@ impl VerifBox for ManagerBox {
             manager.register_transport(SupportedTransport::Tcp, Box::new(Scripted(self.shared.clone())));
             manager.register_listen_address("/ip4/10.0.0.99/tcp/99".parse().expect("address"));
             self.handle = Some(manager.transport_manager_handle());
+            {
+                // the real TCP transport behind the scripted one, and the handle a transport allocates ids with:
+                // both from the REAL `transport_handle(..)`
+                let _guard = self.rt.enter();
+                if self.resolver.is_none() {
+                    self.resolver = make_resolver();
+                }
+                let executor: Arc<dyn crate::executor::Executor> = Arc::new(crate::executor::DefaultExecutor {});
+                let mut shared = self.shared.lock().unwrap();
+                if let Some(resolver) = self.resolver.clone() {
+                    let config = TcpConfig { listen_addresses: Vec::new(), ..Default::default() };
+                    shared.tcp = <TcpTransport as TransportBuilder>::new(
+                        manager.transport_handle(executor.clone()),
+                        config,
+                        resolver,
+                    )
+                    .ok()
+                    .map(|(transport, _)| transport);
+                }
+                shared.handle = Some(manager.transport_handle(executor));
+            }
             // the facade object around the manager, assembled as `Litep2p::new` does
             self.node = Some(Box::new(Litep2p {
                 local_peer_id: manager.local_peer_id,
@@ -623,6 +722,8 @@ impl VerifBox for ManagerBox {
             self.ptx.clear();
             self.prx.clear();
             self.auto = 0;
+            self.clash = None;
+            self.sub = None;
             return "ok".into();
         }
         if self.node.is_none() {
@@ -715,6 +816,76 @@ impl VerifBox for ManagerBox {
             return "busy".into();
         }
         match t.as_slice() {
+            // the address store of a peer (read-only, nothing is polled)
+            ["scores", p] => {
+                let Ok(p) = p.parse::<u64>() else { return "bad-op".into() };
+                let who = self.peer_of(p);
+                let mut shown: Vec<String> = match self.mgr().peers.read().get(&who) {
+                    Some(context) => context
+                        .addresses
+                        .addresses
+                        .values()
+                        .map(|record| format!("{}={}", self.show_addr(record.address()), record.verif_score()))
+                        .collect(),
+                    None => Vec::new(),
+                };
+                shown.sort();
+                format!("sc={}", if shown.is_empty() { "-".to_string() } else { shown.join(",") })
+            }
+            // a protocol opens a substream to `p`: the real `TransportService::open_substream` takes the id from
+            // the manager's substream counter (the connection it goes to is a real `ProtocolSet` of its own)
+            ["substream", p] => {
+                let Ok(p) = p.parse::<u64>() else { return "bad-op".into() };
+                if p == 0 || p > 64 {
+                    return "bad-op".into();
+                }
+                let who = self.peer_of(p);
+                let name = ProtocolName::from("/verif/sub");
+                if self.sub.is_none() {
+                    let manager = &self.node.as_ref().unwrap().transport_manager;
+                    let (service, sender) = TransportService::new(
+                        manager.local_peer_id,
+                        name.clone(),
+                        Vec::new(),
+                        manager.next_substream_id.clone(),
+                        manager.transport_manager_handle(),
+                        KEEP_ALIVE_TIMEOUT,
+                        SubstreamKeepAlive::Yes,
+                    );
+                    self.sub = Some((service, sender, HashMap::new()));
+                }
+                let (service, sender, sets) = self.sub.as_mut().unwrap();
+                if !sets.contains_key(&p) {
+                    let executor: Arc<dyn crate::executor::Executor> = Arc::new(crate::executor::DefaultExecutor {});
+                    let mut handle = self.node.as_ref().unwrap().transport_manager.transport_handle(executor);
+                    handle.protocols = HashMap::from([(
+                        name.clone(),
+                        ProtocolContext::new(
+                            ProtocolCodec::UnsignedVarint(None),
+                            sender.clone(),
+                            Vec::new(),
+                            SubstreamKeepAlive::Yes,
+                        ),
+                    )]);
+                    let id = ConnectionId::from(1_000_000usize + p as usize);
+                    let mut set = handle.protocol_set(id);
+                    let endpoint = Endpoint::listener(Multiaddr::empty(), id);
+                    let _ = self.rt.block_on(set.report_connection_established(who, endpoint));
+                    // the service takes the connection out of its channel
+                    let waker = futures::task::noop_waker();
+                    let mut cx = Context::from_waker(&waker);
+                    let _guard = self.rt.enter();
+                    let _ = Pin::new(&mut *service).poll_next(&mut cx);
+                    sets.insert(p, set);
+                }
+                match service.open_substream(who) {
+                    Ok(id) => {
+                        let digits: String = format!("{id:?}").chars().filter(|c| c.is_ascii_digit()).collect();
+                        format!("sub={digits}")
+                    }
+                    Err(_) => "sub=err".into(),
+                }
+            }
             ["addknown", p, addresses] => {
                 let Ok(p) = p.parse::<u64>() else { return "bad-op".into() };
                 let mut list = Vec::new();
@@ -809,9 +980,16 @@ impl VerifBox for ManagerBox {
                 let Ok(p) = p.parse::<u64>() else { return "bad-op".into() };
                 let id = self.conn_of(conn);
                 let who = self.peer_of(p);
-                let tx = self.mgr().event_tx.clone();
-                tx.try_send(TransportManagerEvent::ConnectionClosed { peer: who, connection: id })
-                    .expect("event channel");
+                if self.ptx.is_empty() {
+                    // as a connection does when its event loop ends: the real `ProtocolSet` made by the real
+                    // `TransportHandle` tells the (here: zero) protocols, then the manager
+                    let mut set = self.shared.lock().unwrap().handle.as_ref().expect("handle").protocol_set(id);
+                    let _ = self.rt.block_on(set.report_connection_closed(who, id));
+                } else {
+                    let tx = self.mgr().event_tx.clone();
+                    tx.try_send(TransportManagerEvent::ConnectionClosed { peer: who, connection: id })
+                        .expect("event channel");
+                }
                 self.observe("-".into(), None)
             }
             ["accepted", conn, how] => {
